@@ -46,12 +46,15 @@ def instances(tier, seed):
     out = []
     for si in range(len(SIGS)):
         for tc in ("typeguard", "beartype"):
-            out.append(("core", dict(kind="call", sig=si, tc=tc, maxrank=2)))
-    for dims in ("a b", "*v a", "#a *#v", "a a+1", "... 3", "x+1", "_ a"):
-        for prior in ([], ["a"], ["*v"]):
-            out.append(("core", dict(kind="check", dims=dims, prior=prior, maxrank=3)))
+            out.append(("core", dict(kind="call", sig=si, tc=tc, maxrank=2 if tier == "quick" else 3)))
+    dimlist = ["a b", "*v a", "#a *#v", "a a+1", "... 3", "x+1", "_ a"]
+    if tier == "thorough":
+        dimlist += ["a #b 3", "*#v a b", "a-1 a", "2*a *v a", "#a #a", "a ... b", "*v", "", "1 a 1", "a*2 a b"]
+    for dims in dimlist:
+        for prior in ([], ["a"], ["*v"]) + (() if tier == "quick" else (["a b"], ["*#v"], ["#a"])):
+            out.append(("core", dict(kind="check", dims=dims, prior=list(prior), maxrank=3 if tier == "quick" else 4)))
     for ti in range(len(TREE)):
-        for sk in ("t2", "nest", "dict"):
+        for sk in ("t2", "nest", "dict") + (() if tier == "quick" else ("none", "node", "nt", "deep", "empty")):
             out.append(("core", dict(kind="tree", spec=ti, skel=sk)))
     return out
 
@@ -65,7 +68,8 @@ ASSUMPTIONS = ["a tracer differs from MonArr only in being a jax.Array instance 
 REQUIRED_LABELS = {"no-value-access", "verdict", "tracing-equals-eager"}
 REQUIRED_WITNESS = {"OK", "TCE", "ERR", "bridged"}
 BUDGET_S = {"quick": 200, "thorough": 1200}
-setup_worker = c01.setup_worker
+from checks import c08 as _c08
+setup_worker = _c08.setup_worker
 preflight = c01.preflight
 _counter = [0]
 _fn_cache = {}
@@ -165,6 +169,7 @@ def scenario(inst, V):
     if kind == "tree":
         from checks import c08
         from spec import trees as T
+        T.register_node()
         spec = c08._tuplify(TREE[inst["spec"]])
         n, mk = c08.SKEL[inst["skel"]]
         leaves = []
